@@ -182,7 +182,7 @@ static void program(Rng& r, bool T) {
         if (um.lg_k < lu) count("result_lgk_below_union_lgk");
         if (r.chance(step + 1 == ord.size() ? 0.6 : 0.15)) roundtrip(res, um, seed, "union-result", ctx);
         if (step + 1 == ord.size()) {
-          if (oi == 0) { first_result.reset(new cpc_sketch(res)); final_model = um; }
+          if (!first_result) { first_result.reset(new cpc_sketch(res)); final_model = um; }
           else {
             // order independence, checked directly between the two real results
             auto a = first_result->build_bit_matrix(); auto b = res.build_bit_matrix();
@@ -247,7 +247,12 @@ static void big_union(Rng& r) {
 void run_case(uint64_t idx, Rng& r) {
   const bool T = G().thorough();
   if (T && idx == 13) { big_union(r); return; }
-  program(r, T);
+  try {
+    program(r, T);
+  } catch (const std::exception& e) {
+    // building an input (updates, nested union, deserialization of the library's own image) must not throw either
+    fail("union|threw-while-building-inputs", G().cur_desc + " what=" + e.what());
+  }
 }
 
 } // namespace vf
